@@ -21,7 +21,7 @@ def gen_case(rng: random.Random, i: int, thorough: bool):
     p["sight_in"] = rng.choice([-2.0, 0.0, 1.5, 2.0, 3.2, 6.0])
     p["look_deg"] = [0.0, 0.0, 5.0, -5.0, 10.0, -15.0, 20.0, 30.0, -30.0, 45.0, -45.0, 55.0, rng.uniform(-59, 59)][i % 13]
     p["alt_ft"] = rng.choice([0.0, 500.0, 3000.0])
-    d_yd = rng.choice([10.0, 25.0, 50.0, 100.0, 100.0, 200.0, 300.0, 500.0, rng.uniform(10, 700), rng.uniform(700, 1500)])
+    d_yd = rng.choice([3.0, 5.0, 10.0, 25.0, 50.0, 100.0, 100.0, 200.0, 300.0, 500.0, rng.uniform(2, 10), rng.uniform(10, 700), rng.uniform(700, 1500)])
     prev = rng.choice([0.0, 0.0, 0.001, 0.02, -0.003])
     if i % 3 == 1:
         # the wind changes INSIDE the zero distance (different down-range components before and after)
